@@ -137,6 +137,54 @@ pub async fn run_suite(seed: u64, cases: usize) -> String {
           live.get_mut(&k).unwrap().1 = mine.max(0) as u32;
         }
         line!(format!("burst {k} {n}"), format!("executing={} eof={} errors={}", if eof { 0 } else { mine }, eof as u8, errs.len()));
+      } else if choice < 76 {
+        // requests that are refused with a recoverable error, one after the other, more of them than the connection has slots:
+        // each is answered, none keeps its slot, the connection stays open
+        let authed: Vec<usize> = ks.iter().copied().filter(|k| live[k].0).collect();
+        if authed.is_empty() {
+          continue;
+        }
+        let k = *r.pick(&authed);
+        let n = cfg.max_inflight + r.range(1, 3) as u32;
+        let already = live.get(&k).map(|v| v.1).unwrap_or(0);
+        if already >= cfg.max_inflight {
+          continue;
+        }
+        let mut errors = 0u32;
+        let mut eof = false;
+        for _ in 0..n {
+          next_id += 1;
+          srv.send(k, format!("LEAVE id={next_id} channel=!nosuch{next_id}@localhost\n").as_bytes()).await;
+          srv.settle(1).await;
+          let got = srv.collect().await;
+          if let Some((f, e)) = got.get(&k) {
+            errors += f.iter().filter(|x| matches!(&x.msg, Message::Error(p) if p.id == Some(next_id) && p.reason.as_ref() == "CHANNEL_NOT_FOUND")).count() as u32;
+            eof |= *e;
+          }
+          for (kk, (_, e)) in &got {
+            if *e && *kk != k {
+              live.remove(kk);
+            }
+          }
+          if eof {
+            break;
+          }
+        }
+        if already < cfg.max_inflight && (eof || errors != n) {
+          for tag in ["C14", "C13"] {
+            fails.push((case, format!(
+              "{tag}: [slot-leak] connection {k} ({already} requests executing, max_inflight_requests={}) sent {n} LEAVEs of unknown channels one after the other: {errors} were answered CHANNEL_NOT_FOUND and the connection was {}: a refused request did not give its in-flight slot back",
+              cfg.max_inflight,
+              if eof { "closed" } else { "left open" }
+            )));
+          }
+        }
+        if eof {
+          live.remove(&k);
+        }
+        if already < cfg.max_inflight {
+          line!(format!("fails {k} {n}"), format!("executing={} eof={} errors={errors}", if eof { 0 } else { already }, eof as u8));
+        }
       } else if choice < 82 {
         let m = srv.modulator.as_ref().unwrap().clone();
         m.set_hold(false);
